@@ -13,7 +13,9 @@ import (
 
 	"github.com/btcsuite/btcutil/base58"
 	"github.com/cosmos/cosmos-sdk/client"
+	"github.com/cosmos/cosmos-sdk/codec"
 	codectypes "github.com/cosmos/cosmos-sdk/codec/types"
+	"github.com/cosmos/cosmos-sdk/x/auth/migrations/legacytx"
 	sdk "github.com/cosmos/cosmos-sdk/types"
 	"github.com/cosmos/cosmos-sdk/types/tx/signing"
 	authsigning "github.com/cosmos/cosmos-sdk/x/auth/signing"
@@ -192,9 +194,100 @@ func pairJSON(m sdk.Msg) MsgJSONPair {
 	return MsgJSONPair{sdk.MsgTypeURL(m), base64.StdEncoding.EncodeToString(protoOf(m))}
 }
 
+// aminoRoundTrip: the module's own canonical JSON of a message (what legacy amino JSON signs)
+// must parse back, with the module's codec, into exactly that message. A rendering that drops,
+// merges, re-interprets or injects anything fails this for some value.
+func aminoRoundTrip(m sdk.Msg) string {
+	lm, ok := m.(legacytx.LegacyMsg)
+	if !ok || hasInvalidUTF8(m) {
+		return "" // not signable in this mode / open finding C14-amino-invalid-utf8
+	}
+	var cdc *codec.AminoCodec
+	switch {
+	case strings.HasPrefix(sdk.MsgTypeURL(m), "/panacea.aol."):
+		cdc = aoltypes.ModuleCdc
+	case strings.HasPrefix(sdk.MsgTypeURL(m), "/panacea.did."):
+		cdc = didtypes.ModuleCdc
+	default:
+		return ""
+	}
+	var bz []byte
+	if err := func() (err error) {
+		defer func() {
+			if r := recover(); r != nil {
+				err = fmt.Errorf("%v", r)
+			}
+		}()
+		bz = lm.GetSignBytes()
+		return nil
+	}(); err != nil {
+		return fmt.Sprintf("GetSignBytes of a valid %s panics for this value: %v", sdk.MsgTypeURL(m), err)
+	}
+	o := reflect.New(reflect.TypeOf(m).Elem()).Interface().(sdk.Msg)
+	if err := cdc.UnmarshalJSON(bz, o.(proto.Message)); err != nil {
+		return fmt.Sprintf("the amino JSON sign bytes of %s do not parse back into the message: %v: %s", sdk.MsgTypeURL(m), err, trunc(bz, 300))
+	}
+	// present-but-empty and absent repeated fields are the same content (JSON omits both)
+	mc := reflect.New(reflect.TypeOf(m).Elem()).Interface().(sdk.Msg)
+	if err := proto.Unmarshal(protoOf(m), mc); err != nil {
+		return ""
+	}
+	normEmpty(reflect.ValueOf(mc))
+	normEmpty(reflect.ValueOf(o))
+	if !bytes.Equal(protoOf(o), protoOf(mc)) {
+		return fmt.Sprintf("the amino JSON sign bytes of %s parse back into a different message: %s", sdk.MsgTypeURL(m), trunc(bz, 300))
+	}
+	return ""
+}
+
+// normEmpty replaces empty slices and pointers to empty slices by nil, recursively.
+func normEmpty(v reflect.Value) {
+	switch v.Kind() {
+	case reflect.Ptr:
+		if v.IsNil() {
+			return
+		}
+		if e := v.Elem(); e.Kind() == reflect.Slice && e.Len() == 0 && v.CanSet() {
+			v.Set(reflect.Zero(v.Type()))
+			return
+		}
+		normEmpty(v.Elem())
+	case reflect.Interface:
+		if !v.IsNil() {
+			normEmpty(v.Elem())
+		}
+	case reflect.Struct:
+		for i := 0; i < v.NumField(); i++ {
+			if v.Type().Field(i).PkgPath == "" {
+				normEmpty(v.Field(i))
+			}
+		}
+	case reflect.Slice:
+		if v.Len() == 0 {
+			if !v.IsNil() && v.CanSet() {
+				v.Set(reflect.Zero(v.Type()))
+			}
+			return
+		}
+		if v.Type().Elem().Kind() != reflect.Uint8 {
+			for i := 0; i < v.Len(); i++ {
+				normEmpty(v.Index(i))
+			}
+		}
+	}
+}
+
 // checkPair evaluates injectivity and determinism for one ordered pair in all modes.
 // It returns (violation text, known-finding key, modes usable).
 func (e *c14env) checkPair(a, b sdk.Msg, st *pureStats) (string, *c14pair) {
+	for _, m := range []sdk.Msg{a, b} {
+		if safeValidate(m) == nil {
+			if why := aminoRoundTrip(m); why != "" {
+				return why, &c14pair{pairJSON(m), pairJSON(m), "amino-json"}
+			}
+			st.label("amino sign bytes parsed back", 1)
+		}
+	}
 	for _, md := range c14Modes {
 		sa, erra := e.signBytes(e.txc, md.mode, a)
 		sb, errb := e.signBytes(e.txc, md.mode, b)
@@ -352,7 +445,11 @@ func mutSites(v reflect.Value, path string, out *[]mutSite) {
 	case reflect.String:
 		if v.CanSet() {
 			*out = append(*out, mutSite{path, func(t *rapid.T) string {
-				switch rapid.IntRange(0, 4).Draw(t, "string-edit") {
+				switch rapid.IntRange(0, 5).Draw(t, "string-edit") {
+				case 5:
+					c := rapid.SampledFrom([]string{"\"", "\\", ",", "\\u0031", "}", "\",\"", "<", "&"}).Draw(t, "json-char")
+					v.SetString(v.String() + c)
+					return "JSON-significant characters appended"
 				case 0:
 					v.SetString(v.String() + "a")
 					return "character appended"
@@ -447,6 +544,51 @@ func structuralMutationOf(t *rapid.T, m sdk.Msg) (sdk.Msg, string) {
 	mutSites(reflect.ValueOf(o), "", &sites)
 	if len(sites) == 0 {
 		return nil, ""
+	}
+	if rapid.IntRange(0, 3).Draw(t, "rename") == 0 {
+		// consistent rename: a value that occurs in several places (a method id in the method
+		// list, in a relationship and in the proof) is changed everywhere at once, so that the
+		// message stays coherent
+		byVal := map[string][]reflect.Value{}
+		var vals []string
+		var walk func(v reflect.Value)
+		walk = func(v reflect.Value) {
+			switch v.Kind() {
+			case reflect.Ptr, reflect.Interface:
+				if !v.IsNil() {
+					walk(v.Elem())
+				}
+			case reflect.Struct:
+				for i := 0; i < v.NumField(); i++ {
+					if f := v.Type().Field(i); f.PkgPath == "" && !strings.HasPrefix(f.Name, "XXX_") {
+						walk(v.Field(i))
+					}
+				}
+			case reflect.Slice:
+				if v.Type().Elem().Kind() != reflect.Uint8 {
+					for i := 0; i < v.Len(); i++ {
+						walk(v.Index(i))
+					}
+				}
+			case reflect.String:
+				if v.CanSet() && v.String() != "" {
+					if len(byVal[v.String()]) == 1 {
+						vals = append(vals, v.String())
+					}
+					byVal[v.String()] = append(byVal[v.String()], v)
+				}
+			}
+		}
+		walk(reflect.ValueOf(o))
+		if len(vals) > 0 {
+			sortStrings(vals)
+			val := rapid.SampledFrom(vals).Draw(t, "renamed-value")
+			suffix := rapid.SampledFrom([]string{"a", "\\u0031", "\"", "\\", ",", "\",\"", "&", "<"}).Draw(t, "rename-suffix")
+			for _, v := range byVal[val] {
+				v.SetString(val + suffix)
+			}
+			return o, "structural edit: a value occurring in several places renamed consistently"
+		}
 	}
 	s := sites[rapid.IntRange(0, len(sites)-1).Draw(t, "site")]
 	what := s.apply(t)
